@@ -170,7 +170,9 @@ static bool setup(World &w, const std::vector<std::string> &op)
     std::unique_ptr<sdkm::InstrumentSelector> isel(new sdkm::InstrumentSelector(
         w.views[g].second ? sdkm::InstrumentType::kCounter : sdkm::InstrumentType::kUpDownCounter, iname, ""));
     std::unique_ptr<sdkm::MeterSelector> msel(new sdkm::MeterSelector("m", "", ""));
-    std::unique_ptr<sdkm::View> view(new sdkm::View("v" + std::to_string(g)));
+    // every other view names the aggregation explicitly (sum - what counters and up-down counters have by default anyway)
+    std::unique_ptr<sdkm::View> view(g % 2 == 1 ? new sdkm::View("v" + std::to_string(g), "", "", sdkm::AggregationType::kSum)
+                                                : new sdkm::View("v" + std::to_string(g)));
     w.provider->AddView(std::move(isel), std::move(msel), std::move(view));
   }
   for (auto t : temps)
